@@ -454,7 +454,8 @@ pub fn run_random<P: RandomProp>(prop_id: &str, env: &Env, known: &Known) -> Sub
                         max_shrink_iters: P::max_shrink_iters(),
                         // a wall-clock cap on shrinking only (never on the verdict): expensive cases must not turn a
                         // detected failure into a run that takes hours to report it
-                        max_shrink_time: 20_000,
+                        // only the minimisation of a failure is bounded by wall clock, never the verdict
+                        max_shrink_time: std::env::var("VERIF_SHRINK_MS").ok().and_then(|v| v.parse().ok()).unwrap_or(20_000),
                         max_global_rejects: 1 << 20,
                         rng_algorithm: RngAlgorithm::ChaCha,
                         ..Config::default()
